@@ -405,10 +405,22 @@ class Base:
         if r.random() < 0.6:
             self.add("attr", 2, name="text_output", value='"%s"' % r.choice(["Emit", "Skip"]), scope="field", owner="Main")
         # parameterised dynamic struct
-        self.add("field", 1, start=L("int", str(off)), size=L("int", "3"), tname="Inner", targs=[L("enum:Aa", "en"), L("int", "x")], name="inner", owner="Main", passing=True)
+        self.add("field", 1, start=L("int", str(off)), size=L("int", "3"), tname="Inner", targs=[L("enum:Aa", "en"), L("int", "fwarg")], name="inner", owner="Main", passing=True)
         env.add("opaque", "inner")
         env.present.append("inner")
         off += 3
+        # uses of virtual fields that are declared only LATER (fw*): from another let, a condition, a size,
+        # a start, an argument (above) and the struct-level [requires]; directly and through chains of lets
+        gs = ExprGen(r, safe, self.enums)
+        self.add("let", 1, name="ea0", value=X("int", "+", [L("int", "fwi"), g.const()]), owner="Main", env=copy.deepcopy(safe))
+        self.add("let", 1, name="ea1", value=X("bool", "&&", [L("bool", "fwb2"), L("bool", "fl")]), owner="Main", env=copy.deepcopy(safe))
+        self.add("let", 1, name="ea2", value=X("int", "*", [L("int", "fwc2"), L("int", "2")]), owner="Main", env=copy.deepcopy(safe))
+        self.add("if", 1, cond=X("bool", "||", [L("bool", "fwb"), gs.bool_expr(1)]), owner="Main")
+        self.add("field", 2, start=L("int", str(off)), size=L("int", "1"), tname="UInt", name="cfw", owner="Main", scalar=("UInt", 8))
+        off += 1
+        self.add("field", 1, start=L("int", str(off)), size=L("int", "fwsz"), tname="UInt", tbits=8, dims=[None], name="fdyn", owner="Main", array=True)
+        self.add("field", 1, start=X("int", "+", [L("int", str(off)), L("int", "fwst")]), size=L("int", "1"), tname="UInt", name="fst", owner="Main", scalar=("UInt", 8))
+        off += 2
         # virtual fields
         nlet = r.randint(3, 6)
         for i in range(nlet):
@@ -433,9 +445,26 @@ class Base:
         self.add("let", 2, name="cv2", value=g.int_expr(1), owner="Main", env=copy.deepcopy(env))
         self.add("field", 2, start=L("int", str(off)), size=L("int", "1"), tname="UInt", name="c2", owner="Main", scalar=("UInt", 8))
         off += 1
-        # struct-level requires
-        self.lines.insert(main_head, Line("attr", 1, name="requires", value=g.bool_expr(1), scope="struct", owner="Main",
-                                          env=copy.deepcopy(env)))
+        # the forward-referenced virtual fields themselves (expressions over early fields only: no cycles)
+        fenv = copy.deepcopy(safe)
+        self.add("let", 1, name="fwi", value=gs.int_expr(self.depth), owner="Main", env=copy.deepcopy(fenv), fwd="int")
+        self.add("let", 1, name="fwb", value=gs.bool_expr(self.depth), owner="Main", env=copy.deepcopy(fenv), fwd="bool")
+        self.add("let", 1, name="fwc", value=gs.int_expr(self.depth), owner="Main", env=copy.deepcopy(fenv), fwd="int")   # reached only through fwc2
+        fenv.add("int", "fwi")
+        fenv.add("bool", "fwb")
+        fenv.add("int", "fwc")
+        self.add("let", 1, name="fwb2", value=L("bool", "fwb"), owner="Main", env=copy.deepcopy(fenv), fwd="bool")
+        self.add("let", 1, name="fwi2", value=X("int", "+", [L("int", "fwi"), gs.const()]), owner="Main", env=copy.deepcopy(fenv), fwd="int")
+        self.add("let", 1, name="fwc2", value=X("int", "+", [L("int", "fwc"), L("int", "1")]), owner="Main", env=copy.deepcopy(fenv), fwd="int")
+        self.add("let", 1, name="fwarg", value=L("int", "fwi2"), owner="Main", env=copy.deepcopy(fenv), fwd="int")
+        self.add("let", 1, name="fwsz", value=X("int", "$max", [L("int", "1"), L("int", "fwi2")]), owner="Main", env=copy.deepcopy(fenv), fwd="int")
+        self.add("let", 1, name="fwst", value=X("int", "?:", [L("bool", "fwb2"), L("int", "0"), L("int", "1")]), owner="Main", env=copy.deepcopy(fenv), fwd="int")
+        # ... and uses AFTER their declaration
+        self.add("let", 1, name="la0", value=X("int", "+", [L("int", "fwi"), L("int", "fwc2")]), owner="Main", env=copy.deepcopy(fenv))
+        self.add("let", 1, name="la1", value=X("bool", "||", [L("bool", "fwb2"), L("bool", "fwb")]), owner="Main", env=copy.deepcopy(fenv))
+        # struct-level requires (declared first, refers to a later let)
+        self.lines.insert(main_head, Line("attr", 1, name="requires", value=X("bool", "&&", [L("bool", "fwb"), g.bool_expr(1)]),
+                                          scope="struct", owner="Main", env=copy.deepcopy(env)))
         # dynamic tail
         self.add("field", 1, start=X("int", "+", [L("int", str(off)), L("int", "x")]), size=L("int", "w"), tname="UInt", tbits=8, dims=[None], name="tail", owner="Main", array=True)
         self.envs["Main"] = env
@@ -575,6 +604,24 @@ def c13_violations(base, rng, per_rule=1):
             old = dict(tgt.slots_map())[slot]
             tgt.set_slot(slot, old.replace(path, bad))
             cases.append(Case(c.lines, rule, li + 1, doc_typed=False, cls="C13"))
+    # every expression rule once more, in a virtual field that is first reached through a reference from an
+    # EARLIER field (directly or through a chain of lets): the verdict must not depend on the visiting order
+    fwd = [(li, l) for li, l in enumerate(lines) if l.kind == "let" and l.f.get("fwd")]
+    for kind in ("int", "bool"):
+        cand = [(li, l) for li, l in fwd if l.f["fwd"] == kind]
+        if not cand:
+            continue
+        li0, l0 = cand[0]
+        g0 = ExprGen(rng, l0.env, base.enums)
+        for rule, bad in bad_expressions(rng, g0, kind, l0.env):
+            li, l = rng.choice(cand)
+            g = ExprGen(rng, l.env, base.enums)
+            same = [b for r2, b in bad_expressions(rng, g, kind, l.env) if r2 == rule]
+            if not same:
+                continue
+            c = base.case()
+            c.lines[li].f["value"] = rng.choice(same)
+            cases.append(Case(c.lines, rule, li + 1, doc_typed=False, cls="C13", note="forward-referenced:" + l.f["name"]))
     # positional rules
     def pos_sites(pred):
         return [(li, l) for li, l in enumerate(lines) if pred(l)]
